@@ -12,6 +12,7 @@ import sys
 import weakref
 
 import anyio
+from typing import Optional  # noqa: F401  (named by string annotations of injected methods)
 from guard import guarded_run  # noqa: E402
 from contextlib import AsyncExitStack  # noqa: E402
 
@@ -2094,7 +2095,78 @@ async def injected_lookups_happen_in_signature_order():
     return out["sync"] and out["async"], f"{out}"
 
 
-SCENARIOS = {f.__name__: f for f in (injected_lookups_happen_in_signature_order, closing_anothers_context_leaves_the_closers_own_alone, lookup_made_inside_awaited_after_the_block_is_refused, overridden_default_types_need_not_exist, queued_event_keeps_its_source, failed_adds_of_unusual_shapes_change_nothing, partly_shadowed_factory_releases_its_waiter, refused_resource_of_a_failed_start_leaves_no_callback, registration_during_a_service_tasks_stop, annotations_mean_what_they_say, default_name_is_remapped_only_while_starting, parent_is_the_current_context_itself, refused_entry_changes_nothing, left_from_another_task_is_closed_all_the_same, factories_waiting_on_each_other_complete, nested_tree_publications_release_waiters, timeout_watches_every_tree, every_registration_of_a_component_is_torn_down, generic_alias_types_are_found_by_every_lookup, optional_injection_is_the_optional_lookup, start_value_and_failed_starts, hard_coded_kwargs_reach_the_child_as_they_are,
+async def same_configuration_object_started_twice():
+    """C05 (and C14): start_component instantiates the WHOLE hierarchy and runs every method exactly once -- every
+    time: the same configuration object (children declared only there, two levels deep) handed to start_component()
+    a second time, in another context, gives the same tree and the same order, and is itself left as it was"""
+    import copy
+    from asphalt.core import Component, start_component
+    trace = []
+
+    class Leaf(Component):
+        def __init__(self, tag="?"):
+            self.tag = tag
+            trace.append(("create", tag))
+
+        async def prepare(self):
+            trace.append(("prepare", self.tag))
+
+        async def start(self):
+            trace.append(("start", self.tag))
+
+    class Mid(Leaf):
+        pass
+    config = {"tag": "root", "components": {"mid": {"type": Mid, "tag": "mid", "components": {
+        "leaf1": {"type": Leaf, "tag": "leaf1"}, "leaf2": {"type": Leaf, "tag": "leaf2"}}}}}
+    before = copy.deepcopy(config)
+    runs = []
+    err = None
+    for _ in range(2):
+        trace.clear()
+        async with Context():
+            try:
+                await start_component(Leaf, config, timeout=3)
+            except BaseException as e:  # noqa
+                err = f"{type(e).__name__}: {str(e)[:100]}"
+        runs.append(sorted(trace))
+    ok = err is None and runs[0] == runs[1] and len(runs[0]) == 12 and config == before
+    return ok, f"error={err}, first={len(runs[0])} events, second={len(runs[1])} events, configuration unchanged={config == before}"
+
+
+async def injected_coroutine_in_a_component_waits_like_the_explicit_lookup():
+    """C19: a call of an injected COROUTINE function behaves as `await get_resource(T, name)` for every mandatory
+    parameter -- in a starting component that means waiting for a sibling to publish the resource -- and as
+    `await get_resource(T, name, optional=True)` (which never waits) for every Optional one"""
+    from typing import Optional
+    from asphalt.core import Component, add_resource, start_component
+    got = {}
+
+    class Needs(Component):
+        @inject
+        async def start(self, *, b: Optional[B] = resource(), a: A = resource()):
+            got["a"], got["b"] = a, b
+
+    class Provides(Component):
+        async def start(self):
+            await anyio.sleep(0.1)
+            add_resource(A("late"))
+            add_resource(B("late too"))
+
+    class Root(Component):
+        def __init__(self):
+            self.add_component("needs", Needs)
+            self.add_component("provides", Provides)
+    err = None
+    async with Context():
+        try:
+            await start_component(Root, {}, timeout=3)
+        except BaseException as e:  # noqa
+            err = f"{type(e).__name__}: {str(e)[:80]} caused by {e.__cause__!r}"[:200]
+    ok = err is None and isinstance(got.get("a"), A) and got.get("b", "unset") is None
+    return ok, f"error={err}, got={ {k: (v if v is None else type(v).__name__) for k, v in got.items()} }"
+
+
+SCENARIOS = {f.__name__: f for f in (injected_coroutine_in_a_component_waits_like_the_explicit_lookup, same_configuration_object_started_twice, injected_lookups_happen_in_signature_order, closing_anothers_context_leaves_the_closers_own_alone, lookup_made_inside_awaited_after_the_block_is_refused, overridden_default_types_need_not_exist, queued_event_keeps_its_source, failed_adds_of_unusual_shapes_change_nothing, partly_shadowed_factory_releases_its_waiter, refused_resource_of_a_failed_start_leaves_no_callback, registration_during_a_service_tasks_stop, annotations_mean_what_they_say, default_name_is_remapped_only_while_starting, parent_is_the_current_context_itself, refused_entry_changes_nothing, left_from_another_task_is_closed_all_the_same, factories_waiting_on_each_other_complete, nested_tree_publications_release_waiters, timeout_watches_every_tree, every_registration_of_a_component_is_torn_down, generic_alias_types_are_found_by_every_lookup, optional_injection_is_the_optional_lookup, start_value_and_failed_starts, hard_coded_kwargs_reach_the_child_as_they_are,
                                      overriding_signal_has_its_own_event_class, second_half_runs_at_the_outer_teardown, rejected_add_registers_no_callback,
                                      wait_finished_means_completely_finished, dead_iterator_inside_its_block_disturbs_nobody,
                                      racing_lookups_generate_once, failing_factory_leaves_the_current_context_alone,
